@@ -9,6 +9,7 @@ mod iv;
 mod conf;
 mod accum;
 mod prod;
+mod kahan;
 #[cfg(feature = "serde")]
 mod serde_ops;
 
@@ -46,6 +47,8 @@ fn dispatch(case: &Value) -> Vec<Value> {
         accum::run(case)
     } else if op.starts_with("mean.") || op.starts_with("prop.") || op.starts_with("quant.") {
         prod::run(case)
+    } else if op.starts_with("kahan.") {
+        kahan::run(case)
     } else if op.starts_with("serde.") {
         #[cfg(feature = "serde")]
         { serde_ops::run(case) }
